@@ -277,30 +277,38 @@ def patch_side_names(ctx):
         ops = [dict(op="FHDR", version=3), dict(op="T", platform=pl, region=rng.choice([-1, 1]))]      # both regions the format knows
         expected = set()
         folder = "ffxiv" if ex == 0 else "ex%d" % ex
-        for cat in CATS:
-            for ch in range(10):
-                sub = (ex << 8) | ch
-                for fid in range(8):
-                    how = (fid + cat + ch) % 3
-                    if how == 0:
-                        ops.append(dict(op="A", main=cat, sub=sub, fid=fid, off=rng.randrange(4), data=rng.randbytes(128), dele=0))
-                    elif how == 1:
-                        ops.append(dict(op="E", main=cat, sub=sub, fid=fid, off=0, n=2))
-                    else:
-                        ops.append(dict(op="H", fk=b"D", hk=rng.choice([b"V", b"D", b"I"]), main=cat, sub=sub, fid=fid, data=rng.randbytes(1024)))
-                    expected.add("sqpack/%s/%s" % (folder, reader[(pn, ex, cat, ch, fid)][2]))
-                for hk in (b"V", b"I", b"D"):
-                    ops.append(dict(op="H", fk=b"I", hk=hk, main=cat, sub=sub, fid=0, data=rng.randbytes(1024)))
-                ops.append(dict(op="H", fk=b"I", hk=rng.choice([b"V", b"I", b"D"]), main=cat, sub=sub, fid=2, data=rng.randbytes(1024)))
-                expected.add("sqpack/%s/%s" % (folder, reader[(pn, ex, cat, ch, 0)][0]))
-                expected.add("sqpack/%s/%s" % (folder, reader[(pn, ex, cat, ch, 0)][1]))
+        # a second target-info chunk in the middle: the first categories are addressed under the first platform, then ALL categories
+        # (the first ones again, too) under another one - every name must carry the platform in force when its command ran
+        pl2 = rng.choice([x for x in range(5) if x != pl])
+        phases = [(pl, CATS[:3]), (pl2, CATS)] if rng.random() < 0.5 else [(pl, CATS)]
+        for pi, (plx, cats) in enumerate(phases):
+            pnx = zp.PLATFORM_NAMES[plx]
+            if pi:
+                ops.append(dict(op="T", platform=plx, region=rng.choice([-1, 1])))
+            for cat in cats:
+                for ch in range(10):
+                    sub = (ex << 8) | ch
+                    for fid in range(8):
+                        how = (fid + cat + ch) % 3
+                        if how == 0:
+                            ops.append(dict(op="A", main=cat, sub=sub, fid=fid, off=rng.randrange(4), data=rng.randbytes(128), dele=0))
+                        elif how == 1:
+                            ops.append(dict(op="E", main=cat, sub=sub, fid=fid, off=0, n=2))
+                        else:
+                            ops.append(dict(op="H", fk=b"D", hk=rng.choice([b"V", b"D", b"I"]), main=cat, sub=sub, fid=fid, data=rng.randbytes(1024)))
+                        expected.add("sqpack/%s/%s" % (folder, reader[(pnx, ex, cat, ch, fid)][2]))
+                    for hk in (b"V", b"I", b"D"):
+                        ops.append(dict(op="H", fk=b"I", hk=hk, main=cat, sub=sub, fid=0, data=rng.randbytes(1024)))
+                    ops.append(dict(op="H", fk=b"I", hk=rng.choice([b"V", b"I", b"D"]), main=cat, sub=sub, fid=2, data=rng.randbytes(1024)))
+                    expected.add("sqpack/%s/%s" % (folder, reader[(pnx, ex, cat, ch, 0)][0]))
+                    expected.add("sqpack/%s/%s" % (folder, reader[(pnx, ex, cat, ch, 0)][1]))
         ops.append(dict(op="EOF"))
         wire = zp.serialise(ops)
         pf = ctx.write("names.patch", wire)
         root = ctx.path("names-target")
         shutil.rmtree(root, ignore_errors=True)
         os.makedirs(root)
-        ctx.case(("patch-names", pn, ex), True, ["patch-side-names:%s" % pn], sample=dict(platform=pn, expansion=ex, commands=len(ops), files_expected=len(expected)))
+        ctx.case(("patch-names", pn, ex), True, ["patch-side-names:%s" % pn, "patch-side-names:target-info-chunks:%d" % len(phases)], sample=dict(platform=pn, expansion=ex, commands=len(ops), files_expected=len(expected)))
         r = ctx.call("zp.apply", root, pf, input_bytes=len(wire))
         if not ctx.check_mon(r, len(wire), files=[pf]):
             shutil.rmtree(root, ignore_errors=True)
